@@ -7,7 +7,7 @@ CONSTANTS
   MaxSlot = 90
   MaxOps = 3
   MaxLog = 3
-  RC = FALSE
+  RC = TRUE
   KeepHist = TRUE
   GenLen = 120
   Mut = {}
